@@ -49,6 +49,7 @@ type replication struct {
 	leaderUpdateCh chan leaderUpdate
 	replUpdateCh   chan<- replUpdate
 	stopCh         chan struct{}
+	done           chan struct{} // closed when runLoop has returned
 }
 
 func (r *replication) runLoop(req *appendReq) {
